@@ -8,6 +8,80 @@ from lib import log, require
 W = os.path.join(lib.WORK, "conc_chk")
 
 
+PRE = 'param (\n  (/core; /system) :\n  @(import("/repo/lib/std/builtin.zy"))\n) in\nlet (/OS; /process) = system in\n'
+CONTENTS = {"V": PRE + "! (process/exit) 0\n", "E1": PRE + "let x : OS = 1 in\n! (process/exit) 0\n", "E2": PRE + "! (process/exit\n", "E3": PRE + "! (process/exit) y\n"}
+
+
+def lsp_binding(tier, out):
+    import random
+    import time
+    from lsp_client import Lsp, digest
+    lib.build_repo_bins()
+    d = os.path.join(W, "lsp")
+    os.makedirs(d, exist_ok=True)
+    rnd = random.Random(lib.seed() + 17)
+    server = Lsp(lib.CAJUN)
+    server.start()
+    is_pub = lambda m, uri, v: m.get("method") == "textDocument/publishDiagnostics" and m["params"].get("uri") == uri and m["params"].get("version") == v
+    # sequential oracle: what the server publishes for a document that only ever had this text
+    want = {}
+    for name, text in CONTENTS.items():
+        path = os.path.join(d, "oracle_%s.zy" % name)
+        open(path, "w").write(text)
+        uri = "file://" + path
+        server.notify("textDocument/didOpen", {"textDocument": {"uri": uri, "languageId": "zydeco", "version": 1, "text": text}})
+        msgs, ok = server.drain(lambda m: is_pub(m, uri, 1), idle_after=0.4)
+        require(ok, "no diagnostics for the oracle document %s" % name)
+        want[name] = digest([m for m in msgs if is_pub(m, uri, 1)][-1]["params"]["diagnostics"])
+    require(want["V"] == "none" and len({want[n] for n in ("E1", "E2", "E3")}) == 3 and "none" not in (want["E1"], want["E2"], want["E3"]),
+            "oracle diagnostics are not distinguishable: %s" % want)
+    rounds = 14 if tier == "quick" else 120
+    records, superseded, completed, stale_last = [], 0, 0, 0
+    for r in range(rounds):
+        k = rnd.randint(2, 9)
+        seq = [rnd.choice(list(CONTENTS)) for _ in range(k)]
+        path = os.path.join(d, "doc_%d.zy" % r)
+        open(path, "w").write(CONTENTS[seq[0]])
+        uri = "file://" + path
+        server.notify("textDocument/didOpen", {"textDocument": {"uri": uri, "languageId": "zydeco", "version": 1, "text": CONTENTS[seq[0]]}})
+        for i in range(1, k):
+            if rnd.random() < 0.4:
+                time.sleep(rnd.random() * 0.03)
+            server.notify("textDocument/didChange", {"textDocument": {"uri": uri, "version": i + 1}, "contentChanges": [{"text": CONTENTS[seq[i]]}]})
+        msgs, ok = server.drain(lambda m: is_pub(m, uri, k), idle_after=0.8, timeout=120)
+        pubs = [m["params"] for m in msgs if m.get("method") == "textDocument/publishDiagnostics" and m["params"].get("uri") == uri and m["params"].get("version") is not None]
+        if not ok or not pubs:
+            out.add_findings([{"property": "C17", "kind": "lsp-no-result-for-newest-revision", "detail": "round %d: versions %s, %d notifications, none for version %d within 120 s" % (r, seq, len(pubs), k)}])
+            continue
+        for j, p in enumerate(pubs):
+            v = p["version"]
+            rec = {"round": r, "version": v, "last": k, "got": digest(p["diagnostics"]), "want": want[seq[v - 1]] if 1 <= v <= k else "?", "final": j == len(pubs) - 1, "text": seq[v - 1] if 1 <= v <= k else "?"}
+            records.append(rec)
+            if rec["got"] == "none" and rec["want"] != "none":
+                superseded += 1
+            elif rec["want"] != "none":
+                completed += 1
+            if rec["final"] and v != k:
+                stale_last += 1
+            if not (rec["got"] in (rec["want"], "none")) or (v == k and rec["got"] != rec["want"]):
+                out.add_findings([{"property": "C17", "kind": "lsp-diagnostics-of-another-revision" if rec["got"] not in (rec["want"], "none") else "lsp-newest-revision-reported-empty",
+                                   "detail": "round %d, texts %s: notification %d of %d carries version %d with diagnostics %s; its own text (%s) gives %s; newest version %d" % (
+                                       r, seq, j + 1, len(pubs), v, rec["got"], rec["text"], rec["want"], k)}])
+        server.notify("textDocument/didClose", {"textDocument": {"uri": uri}})
+    server.stop()
+    trace = os.path.join(W, "lsp.trace.ndjson")
+    with open(trace, "w") as f:
+        for rec in records:
+            f.write(json.dumps(rec) + "\n")
+    require(len(records) >= rounds, "too few notifications: %d" % len(records))
+    res = lib.run_tlc("ZyLspTrace.tla", "ZyLspTrace.cfg", os.path.join(W, "lsp.tlc.out"), workers=1, coverage=False, extra_env={"TRACE": trace}, allow_violation=True, timeout=600)
+    rejected = res["violated"] is not None or res["depth"] - 1 != len(records)
+    mine = any(f.get("kind", "").startswith("lsp-") and f.get("kind") != "lsp-no-result-for-newest-revision" for f in out.findings)
+    require(rejected == mine, "ZyLspTrace and the driver disagree: rejected=%s findings=%s" % (rejected, mine))
+    log("[lsp] %d rounds, %d notifications (%d overtaken and dropped, %d completed with their own diagnostics)" % (rounds, len(records), superseded, completed))
+    return {"rounds": rounds, "notifications": len(records), "bursts_whose_last_notification_is_an_overtaken_version": stale_last, "overtaken": superseded, "completed_with_errors": completed, "states": res["distinct"], "transitions": res["generated"]}
+
+
 def run(prop, tier):
     lib.build_harness()
     os.makedirs(W, exist_ok=True)
@@ -64,6 +138,12 @@ def run(prop, tier):
         replayed += int(stats["snapshots"])
         samples += [e for e in events if e["ev"] == "result" and not e["cancelled"]][:1] + [e for e in events if e["ev"] == "snapshot"][:1]
         per["stress_k%d" % k] = stats
+    # (2b) the editor: bursts of edits sent to the cajun binary over stdio, every publishDiagnostics validated by TLC
+    lsp_stats = lsp_binding(tier, out)
+    states += lsp_stats.pop("states")
+    transitions += lsp_stats.pop("transitions")
+    replayed += lsp_stats["notifications"]
+    per["lsp"] = lsp_stats
     # (3) pending slot of check_resolved
     psum = os.path.join(W, "pending.summary.json")
     lib.zyconf(["pending-slot", psum])
